@@ -168,15 +168,22 @@ class Recorder:
         return self.log[k:]
 
 
+HOOK_TAGS = ("EV", "TR", "AX", "GE", "AE", "SS", "SD", "SE", "DONE", "ERR", "START", "STOP")
+
+
 class RecPlugin(PluginBase):
     def __init__(self, rec: Recorder) -> None:
         self.rec = rec
 
     def on_interpreter_start(self, interpreter: Any) -> None:
         self.rec.log.append(("START", interpreter.id))
+        if self.rec.fault is not None:
+            self.rec.fault("hook", "on_interpreter_start")
 
     def on_interpreter_stop(self, interpreter: Any) -> None:
         self.rec.log.append(("STOP", interpreter.id, self.rec.clock() if self.rec.clock is not None else None))
+        if self.rec.fault is not None:
+            self.rec.fault("hook", "on_interpreter_stop")
 
     def on_event_received(self, interpreter: Any, event: Any) -> None:
         t, n = ev_key(event)
@@ -205,6 +212,8 @@ class RecPlugin(PluginBase):
 
     def on_action_error(self, interpreter: Any, action: Any, error: Any) -> None:
         self.rec.log.append(("AE", action.type, type(error).__name__))
+        if self.rec.fault is not None:
+            self.rec.fault("hook", "on_action_error")
 
     def on_guard_evaluated(self, interpreter: Any, guard_name: Any, event: Any, result: Any) -> None:
         self.rec.log.append(("GE", guard_name, result))
@@ -213,15 +222,25 @@ class RecPlugin(PluginBase):
 
     def on_service_start(self, interpreter: Any, invocation: Any) -> None:
         self.rec.log.append(("SS", invocation.id))
+        if self.rec.fault is not None:
+            self.rec.fault("hook", "on_service_start")
 
     def on_service_done(self, interpreter: Any, invocation: Any, result: Any) -> None:
         self.rec.log.append(("SD", invocation.id, repr(result)))
+        if self.rec.fault is not None:
+            self.rec.fault("hook", "on_service_done")
 
     def on_service_error(self, interpreter: Any, invocation: Any, error: Any) -> None:
         self.rec.log.append(("SE", invocation.id, type(error).__name__))
+        if self.rec.fault is not None:
+            self.rec.fault("hook", "on_service_error")
 
     def on_done(self, interpreter: Any, output: Any) -> None:
         self.rec.log.append(("DONE", interpreter.id, repr(output)))
+        if self.rec.fault is not None:
+            self.rec.fault("hook", "on_done")
 
     def on_error(self, interpreter: Any, error: Any) -> None:
         self.rec.log.append(("ERR", interpreter.id, type(error).__name__))
+        if self.rec.fault is not None:
+            self.rec.fault("hook", "on_error")
